@@ -6,7 +6,8 @@ const SGR: [&str; 4] = ["\x1b[1m", "\x1b[0m", "\x1b[31m", "\x1b[38;5;42m"];
 
 /// One line of text with a display width drawn around multiples of the terminal width.
 pub fn gen_line(rng: &mut Rng, w: usize, tag: &str, allow_special: bool) -> String {
-    let k = rng.below(4) as usize;
+    // (multiples of the width up to 3 W, now and then up to 7 W)
+    let k = if rng.chance(1, 5) { rng.below(8) as usize } else { rng.below(4) as usize };
     let target: usize = match rng.below(12) {
         0 => 0,
         1 => 1,
@@ -18,7 +19,7 @@ pub fn gen_line(rng: &mut Rng, w: usize, tag: &str, allow_special: bool) -> Stri
         8 => w.saturating_sub(1),
         _ => rng.below(12) as usize,
     };
-    let target = target.min(6 * w.max(1)).min(200);
+    let target = target.min(8 * w.max(1)).min(if w > 25 { 2000 } else { 200 });
     if target == 0 {
         // empty, or zero-width (SGR only)
         return if allow_special && rng.chance(1, 2) {
@@ -73,9 +74,13 @@ pub fn gen_text(rng: &mut Rng, w: usize, tag: &str, max_lines: usize, allow_spec
     for i in 0..n {
         parts.push(gen_line(rng, w, &format!("{tag}{}", if n > 1 { i.to_string() } else { String::new() }), allow_special));
     }
-    let mut s = parts.join("\n");
+    // (line ends are LF; in printed lines - tags L, M, N - now and then CR LF as in text that
+    // comes from a Windows tool: println splits with str::lines. Messages are split at LF only,
+    // a CR in a message is a control character like any other and not generated)
+    let crlf = matches!(tag.chars().next(), Some('L' | 'M' | 'N')) && rng.chance(1, 15);
+    let mut s = parts.join(if crlf { "\r\n" } else { "\n" });
     if n >= 1 && rng.chance(1, 12) {
-        s.push('\n'); // trailing newline: an empty last line
+        s.push_str(if crlf { "\r\n" } else { "\n" }); // trailing newline: an empty last line
     }
     s
 }
